@@ -13,7 +13,7 @@ import (
 // flavourOf: which build of the harness a property needs.
 func flavourOf(id string) string {
 	switch id {
-	case "C09", "C17":
+	case "C09", "C17", "C02", "C03", "C07":
 		return "shim"
 	case "C10":
 		return "shimrace"
